@@ -20,6 +20,7 @@ from traits.api import (
 
 from vf.lattice import lattice, Plain, PlainSub
 from vf import reference as rf
+from vf.reference import plainify  # noqa: F401  (re-exported for other monitors)
 from vf.util import same, short
 
 META = {
@@ -215,30 +216,6 @@ def gen_nesting(rng, atoms, depth):
     return nm, "nest:" + kind, th, ref
 
 
-def plainify(x):
-    """Trait containers -> plain containers so `same` compares by content."""
-    if isinstance(x, list):
-        return [plainify(e) for e in x]
-    if isinstance(x, tuple) and type(x) is tuple:
-        return tuple(plainify(e) for e in x)
-    if isinstance(x, dict):
-        return {k: plainify(v) for k, v in x.items()}
-    if isinstance(x, set):
-        return set(x)
-    return x
-
-
-def matches(stored, accepts):
-    ps = plainify(stored)
-    for a in accepts:
-        if same(ps, a):
-            return True
-        # a tuple subclass stored as is
-        if isinstance(a, tuple) and type(a) is not tuple and stored is a:
-            return True
-    return False
-
-
 class Raised:
     pass
 
@@ -295,16 +272,16 @@ def judge(ctx, name, kind, K, ref, vid, vclass, v):
                 stored = Raised
                 complaint = "unreadable-after-accept"
             if complaint is None:
-                if not r.accepts:
+                if not r.acceptable():
                     complaint = "accepted-outside-domain"
-                elif not matches(stored, r.accepts):
+                elif not r.matches(stored):
                     complaint = "stored-not-documented-conversion"
                 else:
                     ctx.count("accepted")
                     if not (stored is v):
                         ctx.count("converted")
         elif outcome == "TE":
-            if r.accepts and not r.rej:
+            if r.acceptable() and not r.rej:
                 complaint = "rejected-inside-domain"
             else:
                 ctx.count("rejected")
